@@ -367,6 +367,10 @@ def run(run, tier, seed, replay=None):
                       dict(kind="spec-validation", stream="float-spec", case=fcases[i][0], cpython=fcases[i][1]), found_input=False)
     run.coverage["traces_validated_against_impl"] = len(all_jobs) + len(cjobs)
 
+    # ------------------------------------------------------------------ C14X extension streams (harness/vp/c14x.py)
+    from . import c14x
+    c14x.run_tie(run, tier, seed, prefixes, eps, replay)
+
 
 def format_plain(t):
     """positional notation of the same triple when it has one (exponent <= 0), else scientific"""
